@@ -109,7 +109,12 @@ func main() {
 		deadline = start.Add(time.Duration(*budget) * time.Second * 7 / 10)
 		finalDeadline = start.Add(time.Duration(*budget) * time.Second)
 	}
-	debug.SetGCPercent(400)
+	// The live heap is tiny (one schema per worker) but every request allocates a few MB, so
+	// the default pacer would collect hundreds of times per second of work; every collection
+	// needs all worker threads at a safepoint, which is very slow on an oversubscribed
+	// machine. Collect only when the heap reaches 3 GiB instead (a few dozen collections per run).
+	debug.SetGCPercent(-1)
+	debug.SetMemoryLimit(3 << 30)
 	grid := newGrid(*wrapDepth)
 	if *dump != "" {
 		m := map[string]string{}
@@ -149,6 +154,11 @@ func main() {
 	sort.Slice(o.Findings, func(i, j int) bool { return o.Findings[i].Signature < o.Findings[j].Signature })
 	o.Broken = col.broken
 	o.WallS = time.Since(start).Seconds()
+	if os.Getenv("C16_MEMSTATS") != "" {
+		var ms runtime.MemStats
+		runtime.ReadMemStats(&ms)
+		fmt.Fprintf(os.Stderr, "memstats: total_alloc=%d MiB num_gc=%d pause_total=%v sys=%d MiB\n", ms.TotalAlloc>>20, ms.NumGC, time.Duration(ms.PauseTotalNs), ms.Sys>>20)
+	}
 	b, _ := json.MarshalIndent(o, "", " ")
 	if *out == "" {
 		os.Stdout.Write(append(b, '\n'))
